@@ -6,7 +6,8 @@
 //       HandleFailure are called directly with a scripted result sequence: deterministic, exhaustive enumerations.
 //   hc: the real checker goroutine (sessionChecker.Start, timers, channels) created through the public factory
 //       CreateHealthCheck + SetHealthCheckerHostSet with a registered scripted session: CheckHealth() returns the next
-//       scripted result; a scripted timeout does not answer before the checker's timeout fired.
+//       scripted result: 's'/'f' answer at once, 't' hangs for good (the checker's timeout must turn it into a
+//       failure), 'T' hangs past its timeout and answers late, while the NEXT check is in progress.
 // In both, every callback (host, changed, isHealthy) registered with AddHostCheckCompleteCb is recorded together with
 // the host's FAILED_ACTIVE_HC flag at that moment.
 package c16
@@ -100,10 +101,11 @@ func init() { healthcheck.RegisterSessionFactory(scriptProto, scriptFactory{}) }
 // ---- recording -----------------------------------------------------------------------------------------------
 
 type recorder struct {
-	mu   sync.Mutex
-	want int
-	got  []byte
-	full chan struct{}
+	mu       sync.Mutex
+	want     int
+	got      []byte
+	lastWord uint64
+	full     chan struct{}
 }
 
 func (r *recorder) cb(host types.Host, changed bool, isHealthy bool) {
@@ -120,6 +122,7 @@ func (r *recorder) cb(host types.Host, changed bool, isHealthy bool) {
 	r.mu.Lock()
 	if len(r.got) < r.want {
 		r.got = append(r.got, byte('0'+d))
+		r.lastWord = uint64(host.HealthFlag())
 		if len(r.got) == r.want {
 			close(r.full)
 		}
@@ -144,6 +147,19 @@ func newHost(addr string) types.Host {
 
 func setWord(h types.Host, w uint64) {
 	atomic.StoreUint64(cluster.GetHealthFlagPointer(h.AddressString()), w)
+}
+
+// finalWord: the word of the address when the last callback was delivered (the callback records it)
+func finalWord(rec *recorder, host types.Host, n int) string {
+	rec.mu.Lock()
+	defer rec.mu.Unlock()
+	if n == 0 {
+		return fmt.Sprintf(" w=%d", uint64(host.HealthFlag()))
+	}
+	if len(rec.got) < n {
+		return " w=?"
+	}
+	return fmt.Sprintf(" w=%d", rec.lastWord)
 }
 
 func tokRes(s string) string {
@@ -195,7 +211,7 @@ func runDirect(c *hx.Ctx, u, h uint32, word0 uint64, results string) {
 		}
 	}
 	un, hcn := vc.Counters()
-	c.Emit("C16", fmt.Sprintf("hd %d %d %d %s", u, h, word0, tokRes(results)), fmt.Sprintf("%s %d,%d", r.rec.String(), un, hcn))
+	c.Emit("C16", fmt.Sprintf("hd %d %d %d %s", u, h, word0, tokRes(results)), fmt.Sprintf("%s %d,%d w=%d", r.rec.String(), un, hcn, uint64(r.host.HealthFlag())))
 	c.Count(fmt.Sprintf("hd.len=%02d", len(results)))
 }
 
@@ -238,7 +254,7 @@ func runFactory(u, h uint32, word0 uint64, results string) (string, string) {
 		hc.Stop()
 	}
 	close(sc.done)
-	return fmt.Sprintf("hc %d %d %d %s", u, h, word0, tokRes(results)), rec.String() + " -"
+	return fmt.Sprintf("hc %d %d %d %s", u, h, word0, tokRes(results)), rec.String() + " -" + finalWord(rec, host, len(results))
 }
 
 // ---- generators ------------------------------------------------------------------------------------------------
